@@ -1580,8 +1580,8 @@ def _net_family():
     """abstract nets: a writer (top-level signal / non-top-level signal / Const) and 1..3 other members, each a
     top-level signal or not; every position of the writer in the iteration order"""
     for n_other in (1, 2, 3):
-        for flags in itertools.product((True, False), repeat=n_other):
-            for wkind in ('top', 'sub', 'const'):
+        for flags in itertools.product(('T', 's', 'f'), repeat=n_other):        # top-level / slice / struct field
+            for wkind in ('top', 'slice', 'field', 'const'):
                 for wpos in range(n_other + 1):
                     yield flags, wkind, wpos
 
@@ -1659,22 +1659,24 @@ def rule_residence(repo):
 
     classes = dict(_CLASSES)
     for flags, wkind, wpos in _net_family():
-        def mem(name, top):
+        def mem(name, kind):
+            top = kind == 'T'
             o = AObj(name, tags=['Signal', 'Connectable', 'Wire'], absent=())
-            o.methods.update({'is_top_level_signal': lambda top=top: top, 'is_signal': lambda: True})
+            o.methods.update({'is_top_level_signal': lambda top=top: top, 'is_signal': lambda: True,
+                              'is_sliced_signal': lambda kind=kind: kind == 's'})
             o.top = top
             return o
-        others = [mem(f"{'T' if t else 's'}{i}", t) for i, t in enumerate(flags)]
+        others = [mem(f"{t}{i}", t) for i, t in enumerate(flags)]
         if wkind == 'const':
             cval = AObj('const-value')
             W_ = AObj('Const', tags=['Const', 'Connectable'], attrs={'_dsl': AObj('Const._dsl', attrs=dict(const=cval))},
                       methods={'is_signal': lambda: False}, absent=_CONST_LACKS)
             W_.top = False
         else:
-            W_ = mem('W' if wkind == 'top' else 'w', wkind == 'top')
+            W_ = mem({'top': 'W', 'slice': 'ws', 'field': 'wf'}[wkind], {'top': 'T', 'slice': 's', 'field': 'f'}[wkind])
         members = others[:wpos] + [W_] + others[wpos:]
-        label = f"writer {'Const' if wkind == 'const' else ('top-level' if wkind == 'top' else 'slice/field')} at position " \
-                f"{wpos}, members [{', '.join(repr(x) for x in members)}] (capital = top-level signal)"
+        label = f"writer {'Const' if wkind == 'const' else ('top-level' if wkind == 'top' else wkind)} at position " \
+                f"{wpos}, members [{', '.join(repr(x) for x in members)}] (T/W = top-level signal, s = slice, f = struct field)"
         # --- lock_in_simulation: which storage object does every top-level member end up with
         for is_list in (False, True):
             storage, holder, mapping = {}, {}, {}
@@ -1690,7 +1692,7 @@ def rule_residence(repo):
                     mapping[x] = tuple({'holder': h, 'index': holder[x][1], 'value': storage[x], 'flag': fl}[role]
                                        for role, fl in layouts['list' if is_list else 'attr'])
             # a net made only of slices comes first: the loop must carry on after it
-            sw, sr = mem('w_', False), mem('r_', False)
+            sw, sr = mem('w_', 's'), mem('r_', 's')
             nets = [(sw, ASet([sw, sr])), (W_, ASet(members))]
             it = Interp({MAP: mapping}, classes=classes)
             it.env['nets__'] = nets
@@ -1988,12 +1990,21 @@ def rule_netblock(repo):
     SRC = srcs[0]
     body = glp.body
     comp_st = None
-    for st in body[_index(body, use) + 1:]:
-        calls = [c for c in walk_no_nested(st) if isinstance(c, ast.Call) and isinstance(c.func, ast.Name) and
-                 any(isinstance(a, ast.Name) and a.id == SRC for a in c.args)]
-        if calls:
-            comp_st, CALL = st, calls[0]
+    for _hop in range(4):
+        for st in body[_index(body, use) + 1:]:
+            calls = [c for c in walk_no_nested(st) if isinstance(c, ast.Call) and isinstance(c.func, ast.Name) and
+                     any(isinstance(a, ast.Name) and a.id == SRC for a in c.args)]
+            if calls:
+                comp_st, CALL = st, calls[0]
+                break
+        if comp_st is not None:
             break
+        # the rendered lines are kept in a helper local first: follow it into the statement that assembles the source text
+        nxt = [st for st in body[_index(body, use) + 1:] if isinstance(st, ast.Assign) and len(st.targets) == 1 and
+               isinstance(st.targets[0], ast.Name) and any(isinstance(n, ast.Name) and n.id == SRC for n in ast.walk(st.value))]
+        if not nxt:
+            break
+        use, SRC = nxt[0], nxt[0].targets[0].id
     if comp_st is None:
         raise AnalysisError(f"{gq}: the rendered source {SRC} is never compiled")
     FN = CALL.func.id
@@ -2036,6 +2047,7 @@ def rule_netblock(repo):
             def sig(name, host, top_):
                 o = AObj(name, tags=['Signal', 'Connectable', 'Wire'], absent=())
                 o.methods.update({'is_top_level_signal': lambda: top_, 'is_signal': lambda: True,
+                                  'is_sliced_signal': lambda: name.endswith(']'),       # x[0:4] is a slice, x.f a struct field
                                   'get_host_component': lambda: comps[host]})
                 return o
             if wopt[1] == 'const':
@@ -2193,14 +2205,16 @@ def rule_ancestors(repo):
     r = RuleResult('R-C08-ancestors', "a driven field / slice marks every enclosing signal (not only the outermost) as partially driven")
     m = repo.mod(L3)
     f = m.get_func('ComponentLevel3._resolve_value_connections')
-    marks = [a for a in ast.walk(f) if isinstance(a, ast.Assign) and isinstance(a.targets[0], ast.Subscript) and norm(a.targets[0].value) == 'writer_prop'
-             and norm(a.value) == 'False']
+    # `if x not in writer_prop: writer_prop[x] = False` or `writer_prop.setdefault(x, False)`: mark unless already marked
+    marks = [(a, norm(a.targets[0].slice)) for a in ast.walk(f) if isinstance(a, ast.Assign) and isinstance(a.targets[0], ast.Subscript)
+             and norm(a.targets[0].value) == 'writer_prop' and norm(a.value) == 'False']
+    marks += [(c, norm(c.args[0])) for c in ast.walk(f) if isinstance(c, ast.Call) and norm(c.func) == 'writer_prop.setdefault' and len(c.args) == 2
+              and norm(c.args[1]) == 'False']
     n_ok = 0
-    for a in marks:
+    for a, obj in marks:
         wl = enclosing(a, (ast.While,))
         if wl is None:
             continue
-        obj = norm(a.targets[0].slice)
         step = [s_ for s_ in wl.body if isinstance(s_, ast.Assign) and norm(s_) == f"{obj} = {obj}.get_parent_object()"]
         ok = norm(wl.test) == f"{obj}.is_signal()" and step and not any(isinstance(x, (ast.Break, ast.Continue)) for x in ast.walk(wl))
         if ok:
@@ -2566,7 +2580,21 @@ def rule_replace_filters(repo):
     return rule_keys(repo)
 
 
-RULES = [rule_symmetric, rule_const, rule_nodes, rule_flood, rule_seed, rule_unique, rule_propagate, rule_residence, rule_netblock, rule_overlap,
+def rule_scc_template(repo):
+    """a net block inside a cyclic group is re-evaluated until every watched signal is stable: the generated loop must repeat
+    while ANY watched signal changed -- decided by C11 (R-C11-template)"""
+    from rules.c11 import rule_template
+    return rule_template(repo)
+
+
+def rule_net_blocks_scheduled(repo):
+    """a net only carries its writer's value if its generated net block is in the final schedule: no scheduler (meta-block
+    packing included) may drop or duplicate a block -- decided by C02 (R-kahn)"""
+    from rules.c02 import rule_kahn
+    return rule_kahn(repo)
+
+
+RULES = [rule_scc_template, rule_net_blocks_scheduled, rule_symmetric, rule_const, rule_nodes, rule_flood, rule_seed, rule_unique, rule_propagate, rule_residence, rule_netblock, rule_overlap,
          rule_pending_flag, rule_ancestors, rule_collectors, rule_ifc_symmetric, rule_net_ordering, rule_writer_via_helpers,
          rule_names_denote_storage, rule_replace_keeps_nets, rule_replace_filters, rule_byname, rule_nets_readonly, rule_scc_watch, rule_tick_settles, rule_const_value_fits, rule_replace_registers_slices, rule_index_names, rule_late_signals_registered]
 
@@ -2578,6 +2606,7 @@ def _m(name, file, old, new, rule=None, count=1):
 
 
 MUTANTS = [
+    _m('gen-aliased-readers-chosen-by-not-sliced', GENDAG, "          if x.is_top_level_signal():\n", "          if not x.is_sliced_signal():\n", 'R-C08-residence', count='first'),
     _m('nets-residence-discarded-in-place', 'pymtl3/passes/sim/PrepareSimPass.py', "        for x in signals:\n          if x is not residence and x.is_top_level_signal():", "        signals.discard( residence )\n        for x in signals:\n          if x.is_top_level_signal():", 'R-C08-nets-readonly'),
     _m('byname-nested-lists-not-recursed', L3, "          for i in range(len(this_obj)):\n            # TODO add error message if other_obj is not a list\n            recursive_connect( this_obj[i], other_obj[i] )",
        "          for this_elem, other_elem in zip( this_obj, other_obj ):\n            s._connect( other_elem, this_elem, internal=True )", 'R-C08-byname'),
@@ -2726,6 +2755,8 @@ MUTANTS = [
 ]
 
 EQUIV = [
+    _m('eq-ancestor-mark-via-setdefault', L3, "              if obj not in writer_prop:\n                writer_prop[ obj ] = False\n", "              writer_prop.setdefault( obj, False )\n"),
+    _m('eq-gen-rendered-lines-in-helper-local', GENDAG, '      gen_src = """\ndef {}():\n  x = {}\n  {}""".format( genblk_name, wstr, \'\\n  \'.join([ f"{rstr} @= x" for rstr in rstrs ]) )\n', '      assign_srcs = [ f"{rstr} @= x" for rstr in rstrs ]\n\n      gen_src = """\ndef {}():\n  x = {}\n  {}""".format( genblk_name, wstr, \'\\n  \'.join( assign_srcs ) )\n'),
     _m('eq-byname-zip', L3, "          for i in range(len(this_obj)):\n            # TODO add error message if other_obj is not a list\n            recursive_connect( this_obj[i], other_obj[i] )",
        "          assert len(this_obj) == len(other_obj)\n          for this_elem, other_elem in zip( this_obj, other_obj ):\n            recursive_connect( this_elem, other_elem )"),
     _m('eq-sigsig-directions-swapped', L3, "      s._dsl.adjacency[o1].add( o2 )\n      s._dsl.adjacency[o2].add( o1 )\n\n      s._dsl.connect_order",
